@@ -299,6 +299,8 @@ def run(ctx, rep, model=True):
     seqs += trunc_seqs
     # the two corollaries named by the property
     seqs.append("cook-combine-back"); seqs.append("strain-all")
+    # a field left out of the first selection and taken from the second plotfile instead (both hold it)
+    seqs.append("take-from-second"); seqs.append("take-from-second")
     for i, ks in enumerate(seqs):
         is_trunc = any(ks is t for t in trunc_seqs)
         for _ in range(20):
@@ -320,6 +322,10 @@ def run(ctx, rep, model=True):
                    {"op": "combine", "with": "orig", "first": False, "v1": None, "v2": None}]
         elif ks == "strain-all":
             ops = [{"op": "colander", "vars": ["all"], "limit": None}]
+        elif ks == "take-from-second":
+            nm_ = list(dedup_names(spec["fields"]))
+            ops = [{"op": "chef", "name": "cooked1", "kept": nm_[-1:], "serial": i % 2 == 0},
+                   {"op": "combine", "with": "orig", "first": False, "v1": nm_[:-1], "v2": nm_[-1:] + ["cooked1"], "cli": i % 2 == 1}]
         else:
             ops = gen_ops(ctx.rng, spec, sib, ks, trunc=is_trunc)
         run_seq(ctx, rep, spec, sib, ops, start=[None, pools.order_reversed][i % 2], reuse=(i % 3 != 0))
